@@ -60,7 +60,7 @@ pub fn c01_workloads(thorough: bool) -> Vec<(Workload, usize)> {
             (Workload { name: "W1-bound4".into(), ..w1 }, 4),
         ]
     } else {
-        vec![(w1, 2), (w2, 1), (w3, 1), (w4, 1), (w6, 1), (w5, 1), (w7, 1), (w8, 1)]
+        vec![(w1, 2), (w2, 1), (w3, 1), (w4, 1), (w6, 1), (w5, 1), (w7, 1), (w8, 1), (w9, 1)]
     }
 }
 
@@ -296,7 +296,7 @@ fn ev_list(c: &ChanObs) -> Vec<String> {
 pub fn c13_workloads(thorough: bool) -> Vec<(Workload, usize)> {
     use Side::*;
     let mut v: Vec<(Workload, usize)> = vec![];
-    for (mut w, b) in c01_workloads(false).into_iter().take(6) {
+    for (mut w, b) in c01_workloads(false).into_iter().filter(|(w, _)| !w.early_send && !w.name.starts_with("W8")) {
         w.record_wire = true;
         w.linger_ms = 0; // observe post-ack silence up to the horizon
         w.horizon_ms = 40_000;
